@@ -323,6 +323,17 @@ func scenarios() []vrt.Scenario {
 			w.s.Spawn("sender", false, func() { w.send(1); w.send(2) })
 			w.s.Spawn("stopper", false, func() { w.unsubscribe(a, a.sub) })
 		}),
+		mk("S11-served-subscriber-unsubscribes-while-send-blocked-on-others", func(w *world) {
+			// A is buffered and is served at once; the Send then waits for B and C; A leaves meanwhile
+			a, b, c := w.newSub("A", 1), w.newSub("B", 0), w.newSub("C", 0)
+			w.subscribe(a)
+			w.subscribe(b)
+			w.subscribe(c)
+			w.s.Spawn("sender", false, func() { w.send(1) })
+			w.s.Spawn("unsubA", false, func() { w.unsubscribe(a, a.sub) })
+			w.reader(b, -1)
+			w.reader(c, -1)
+		}),
 		mk("S9-unsubscribe-buffered-during-two-sends", func(w *world) {
 			a, b := w.newSub("A", 2), w.newSub("B", 2)
 			w.subscribe(a)
